@@ -72,7 +72,7 @@ func (c *Conc) Addr(name string) string {
 		c.addrRev[" \t "] = name
 		return " \t "
 	case name == BadNotBech32:
-		s = "notbech32-" + hex.EncodeToString(c.h("bad")[:4])
+		s = "notbech32-" + hex.EncodeToString(c.h("bad")[:4]) + "-" + strings.Repeat("long-recipient.", 19) // 304 bytes: longer than any address format allows
 		c.addrRev[s] = name
 		return s
 	case name == "gov":
@@ -321,10 +321,18 @@ func (c *Conc) Meta(m absx.M) []byte {
 	case "plain":
 		out = `{"name":"minitia","note":"no channels"}`
 	case "perm":
-		if c.Seed%2 == 0 {
+		// three spellings of the same document; which one a channel list gets depends on the list, so that one run sees all
+		variant := int(uint64(c.Seed)%3) + len(items)
+		if len(items) > 0 && strings.Contains(items[0], "channel-1") {
+			variant++
+		}
+		switch variant % 3 {
+		case 0:
 			out = `{"perm_channels":` + list + `}`
-		} else {
+		case 1:
 			out = "{\n  \"perm_channels\": " + list + "\n}"
+		default: // JSON escapes in the key and in a value: still the key perm_channels, still the port "transfer"
+			out = `{"perm_\u0063hannels":` + strings.ReplaceAll(list, `"transfer"`, `"transf\u0065r"`) + `}`
 		}
 	case "unknownField":
 		out = `{"perm_channels":` + list + `,"extra":1}`
